@@ -127,6 +127,8 @@ def rule_start_typestate(ctx: Ctx, rule: str) -> None:
                    'dot; parse_extend saves the state, restores it on failure, re-arms START after `|` when the group '
                    'began at START; (b) a group that can match empty must not consume START; (c) a START guard must not '
                    'be emitted inside a repeating group body')
+    from . import seqrules
+    seqrules.rule_star_epilogue(ctx, rule)
     repo = ctx.repo
     ev = SymEval(repo, inline=True)
     trans = {
